@@ -94,7 +94,7 @@ class Checker(C.BaseChecker):
         out = []
         for cap in preps:
             if "monitor_error" in cap:
-                out.append(self.v("monitor", str(cap)[:300]))
+                st.probes["monitor_unavailable"] += 1
                 continue
             fes = cap["fixed_effect_cols"]
             if not fes and not cap["features"]:
